@@ -633,7 +633,12 @@ class ContactlessFrontend(object):
                 if llc.activate(mac=DEP(clf=self), **dep_cfg):
                     log.debug("connected {0}".format(llc))
                     if options['on-connect'](llc):
-                        llc.run(terminate=terminate)
+                        try:
+                            llc.run(terminate=terminate)
+                        except SystemExit:
+                            # the llc run loop ends a thread this way
+                            # after an input/output error
+                            raise IOError(errno.EIO, os.strerror(errno.EIO))
                         return options['on-release'](llc)
                     else:
                         return llc
